@@ -192,15 +192,32 @@ def _c15():
             flags=ST + ("--no-memory-safety-checks",)),
           H("c15::c15d_hex_literal_4", "`#` + 4 hex digits: #abcd = #aabbccdd", covers=("end", "parsed"), flags=ST + ("--no-memory-safety-checks",)),
           H("c15::c15d_hex_literal_6", "`#` + 6 hex digits", tiers=T, covers=("end", "parsed"), flags=ST + ("--no-memory-safety-checks",)),
-          H("c15::c15d_hex_literal_8", "`#` + 8 hex digits", tiers=T, covers=("end", "parsed"), flags=ST + ("--no-memory-safety-checks",))]
+          H("c15::c15d_hex_literal_8", "`#` + 8 hex digits", tiers=T, covers=("end", "parsed"), flags=ST + ("--no-memory-safety-checks",)),
+          H("c15::c15b_as_hsla_literal", "Color::as_hsla on every named/hex literal colour (Color::new, all 2^24 channel triples, alpha byte 0 or 255): "
+            "alpha equals alpha() and lies in [0,1], hue in [0,360], saturation and lightness in [0,1]", covers=("end", "opaque_named"), flags=ST),
+          H("c15::c15b_as_hsla_rgba", "the same for Color::from_rgba(r, g, b, any f64 alpha)", covers=("end", "translucent"), flags=ST),
+          H("c15::c15c_from_hwb_hue", "Color::from_hwb, hue path: any finite hue with |hue| < 2^20, (whiteness, blackness) from 10 fixed pairs "
+            "(incl. sums over 100 and 1e-14): integer channels in [0,255]", covers=("end", "negative_hue"), flags=ST, timeout=1500)] + [
+          H("c15::c15c_from_hwb_wb_h%s" % h, "Color::from_hwb, whiteness/blackness path: both any double in [0,100], any f64 alpha, hue = %s: "
+            "integer channels in [0,255], alpha in [0,1]" % h, covers=("end", "tiny_whiteness_normalised_sum"), flags=ST)
+          for h in ("0", "30", "200", "304")] + [
+          H("c15::c15f_mix_endpoints", "Color::mix at weight 100% / 0% returns the first / second colour: all 8-bit channel triples for both colours, "
+            "alpha pairs from a list of 7", covers=("end", "full_weight_distinct", "zero_weight_distinct")),
+          H("c15::c15f_invert_twice", "Color::invert: 255 - channel with the same alpha; twice is the identity; weight 0 is the identity: all 8-bit "
+            "colours, any alpha in [0,1]", covers=("end", "translucent"))]
     from . import engine_f
-    d = _simple(hs, ["color::Color::{from_rgba, from_rgba_fn, red, green, blue, alpha, with_alpha, fade_in, fade_out, hue_to_rgb}",
+    d = _simple(hs, ["color::Color::{new, from_rgba, from_rgba_fn, red, green, blue, alpha, with_alpha, fade_in, fade_out, hue_to_rgb, as_hsla, from_hwb, mix, invert}",
                      "value::number::{Number::clamp, Number::round, fuzzy_round}", "serializer::Serializer::{is_symmetrical_hex, can_use_short_hex}", "parse::value::ValueParser::{parse_hex_color_contents, parse_hex_digit}"],
                 "every f64 argument (full width, symbolic); all 8-bit channel triples; every hex literal of 3/4 (6/8 thorough) digits; hue_to_rgb on the lattice m1=a/L, m2=b/L, "
                 "hue=c/3L (L=32 quick, 256 thorough), every point; update_value (adjust/scale/change component update)",
-                "RGB<->HSL/HWB round trips (about 25 double multiplications/divisions per colour do not finish), the named "
-                "colour table (phf), lighten/darken/mix identities, compressed-mode spelling choice",
-                stubs=["engine F: C models of the std float methods, MIR->C translation validated natively each run"])
+                "RGB<->HSL/HWB round trips (about 25 double multiplications/divisions per colour do not finish), from_hsla and from_hwb on jointly symbolic hue x whiteness x blackness (no answer in 20 min), the named "
+                "colour table (phf), lighten/darken identities, mix at interior weights or with both alphas symbolic (20 min, no answer), compressed-mode spelling choice",
+                stubs=["engine F: C models of the std float methods, MIR->C translation validated natively each run",
+                       "c15b_as_hsla_*: value::number::modulo -> its contract for the divisor 360 (finite |n1| < 2048*360 gives a result in [0,360]; "
+                       "that contract is what engine F `c07_modulo` decides on the real code; the stub asserts the precondition)",
+                       "c15c_from_hwb_*: value::number::fuzzy_round -> the contract engine F `c07_fuzzy_round` decides on the real code (|x| < 2^40: floor or ceil, "
+                       "nearest integer outside the 1e-11 zone around X.5); c15c_from_hwb_hue: f64::rem_euclid(_, 360) -> its documented contract (result in [0,360]); "
+                       "CBMC's own float remainder is not exact (a counterexample through the real rem_euclid/fuzzy_round did not reproduce natively)"])
     d["engines"] = [engine_f.make_engine("C15", [
         {"name": "c15_hue_to_rgb", "inputs": ["a", "b", "c3"], "tiers": ("quick",), "timeout": {"quick": 600},
          "bound": "hue_to_rgb (MIR->C) within [m1, m2] and channel in [0,255]: lattice L=32 (33x33x161 points)"},
@@ -249,11 +266,9 @@ def _c18():
           H("c18::c18a_lex_multibyte", "any code point followed by an ASCII byte", covers=("end", "astral")),
           H("c18::c18c_peek_indentation_5", "SassParser::peek_indentation on 5 tokens over {space, tab, newline, letter}: indentation of the "
             "next non-blank line, whitespace-only lines ignored, mixed tabs/spaces rejected", covers=("end", "indented", "mixed_tabs_spaces"),
-            flags=ST + ("--no-memory-safety-checks",), timeout=1500),
-          H("c18::c18c_peek_indentation_6", "the same on 6 tokens", tiers=T, covers=("end", "indented", "mixed_tabs_spaces"),
-            flags=ST + ("--no-memory-safety-checks",), timeout=2400)]
+            flags=ST + ("--no-memory-safety-checks",), timeout=1500)]  # peek_indentation on 6 tokens: > 16 GB / 12 min and > 16 GB / 13 min with a 30 GB cap (measured); not registered
     return _simple(hs, ["lexer::TokenLexer::next", "parse::sass::SassParser::{peek_indentation, check_indentation_consistency}"],
-                   "sources of 3-4 ASCII bytes; one arbitrary code point + one ASCII byte; indentation over 5 (6) tokens",
+                   "sources of 3-4 ASCII bytes; one arbitrary code point + one ASCII byte; indentation over 5 tokens",
                    "SCSS/indented/CSS agreement of the statement parsers, BOM/@charset handling, whitespace/comment insertion, "
                    "`_`/`-` identifier normalisation (see DESIGN.md), Lexer::new_from_* (collect with data-dependent length)",
                    stubs=[RS_STUB, FMT_STUB])
@@ -321,7 +336,7 @@ def _c07():
                        "functions on ~24k inputs every run"],
                 pre=[engine_t.dump_units, engine_t.check_epsilon])
     d["engines"] = [engine_f.make_engine("C07", [
-        {"name": "c07_fuzzy_round", "inputs": ["x"], "bound": "fuzzy_round (MIR->C) on every double in [0, 2^40)", "timeout": {"quick": 600, "thorough": 1200}},
+        {"name": "c07_fuzzy_round", "inputs": ["x"], "bound": "fuzzy_round (MIR->C) on every double in (-2^40, 2^40)", "timeout": {"quick": 600, "thorough": 1200}},
         {"name": "c07_modulo", "inputs": ["n1", "n2"], "extra": ["-DMODULO_DIVISORS"], "timeout": {"quick": 900, "thorough": 1800},
          "bound": "modulo (MIR->C): divisor in +-{1,3,360,0.1,2.5,100} or 0, dividend any double with |n1| < 2048|n2|"},
     ])]
